@@ -44,6 +44,28 @@ STRENGTHENED = {
     "C18-superseded-handler-untracked": "missed at first; C18 gained the scenario slow-twice (token re-used while the first handler runs) and counts running handlers",
     "C18-empty-ack-timer-outlives-transport": "missed at first; the shutdown fault gained loop stalls after the 1st..6th iteration of the shutdown (late timers)",
     "C15-pong-skips-critical-check": "missed at first; the alphabet gained critical/elective options in Pong, Release and Abort",
+    # round 3
+    "C02-cancel-queued-drops-backlog-key": "missed by C02 at first (caught by C14); C02 gained the withdrawal of a request (held back or in flight) as a fault",
+    "C03-cancel-by-remote": "missed at first (caught by C14); C03 gained the CON that had to wait behind two answered requests to the same endpoint ('queued')",
+    "C03-giveup-log-class-tuning": "missed at first; C03 gained the tuning handed over as a TransportTuning subclass instead of an instance ('class')",
+    "C05-block1-szx-grows": "missed at first; the strict server may now state its own larger SZX in its 2.31s (ok-own-szx, from block k on)",
+    "C05-block2-midway-nonblock": "missed at first; C05 gained later blocks refused with 4.08 / 5.03 or answered without Block2",
+    "C06-block1-multiple-of-size-accepted": "missed at first; the Block1 alphabet gained empty and double-size non-final continuations and the final block behind them",
+    "C06-blockkey-ignores-request-tag": "missed at first; transfers that differ only in Request-Tag / Accept joined the alphabet",
+    "C09-nstart-holds-acks": "missed by C09 at first (caught by C14); C09 gained the isolation runs in which the acknowledgement of X's separate response is lost for good",
+    "C10-reliable-tuning-multicast": "missed at first; the outgoing multicast cells gained the transport-tuning reliability preference (class and instance)",
+    "C11-empty-idctx-kdf-nil": "missed at first; foreign contexts now include the near misses absent vs empty ID context and another salt, for requests and responses",
+    "C11-window-struck-before-verify": "missed by C11 at first (caught by C12); every rejected forgery is now followed by the genuine message on the same recipient",
+    "C12-crash-keeps-stale-window": "missed by C12 at first (caught by C13); C12 gained the family 'state lost for real' on a file-backed context",
+    "C15-elective-option-swallows-signal": "missed at first; the alphabet gained elective options in Ping / Release / Abort and a critical option behind an elective one",
+    "C16-ipv6-default-port-strip": "missed at first; the destination (scheme, host, port) of every accepted authority is now compared with the URI",
+    "C16-uses-params-last-segment": "missed at first; C16 gained sub-delims, ':' and '@' standing unescaped in path segments and query items",
+    "C17-upa-nested-site": "missed at first; C17 gained the Uri-Path-Abbrev family (every abbreviation against the spelled-out path over six .well-known trees)",
+    "C18-blockwise-obs-double-cancel": "missed at first; C18 gained the scenario with a block-wise first notification (obs-client-bw)",
+    "C18-late-subscriber-loses-shutdown-error": "missed at first; C18 gained consumers that subscribe only after the shutdown (errback and async iteration)",
+    "C19-spool-leak-on-valueerror": "missed at first; C19 gained the clause 'a request answered with an error leaves the served tree unchanged'",
+    "C20-based-links-cache-stale-base": "missed at first; C20 gained the update that sets an explicit base (every lookup follows each step anyway)",
+    "C20-linkformat-escape-order": "missed at first; C20 gained values that need quoting (double quote, trailing backslash) - which found C20-F4 on the unchanged tree; the seed was rebased onto the fix",
 }
 
 
